@@ -68,7 +68,8 @@ def check(pid, tier='quick', seed=0):
         scan = runner.scan_assumptions(r.info)
         if scan['forbidden']:
             undecided.append('%s: assume()/admit() present in generated text: %s' % (u, scan['forbidden'][:3]))
-        in_scope = [f for f in r.info['functions'] if fn_in_scope(globs, f['fn'])]
+        # a public pass-through wrapper is in scope whenever the function it delegates to is
+        in_scope = [f for f in r.info['functions'] if fn_in_scope(globs, f['fn']) or (f.get('wrapper_of') and fn_in_scope(globs, f['wrapper_of']))]
         if not in_scope:
             undecided.append('%s: no function of this unit is in scope of %s (vacuous check)' % (u, pid))
         for f in in_scope:
@@ -160,7 +161,7 @@ def check(pid, tier='quick', seed=0):
         for u in units:
             r = sres[u]
             for x in r.failed:
-                if r.info and fn_in_scope(prop['units'][u], x['fn']) and relevant(x) and x['obligation'] not in base_fail:
+                if r.info and relevant(x) and x['obligation'] not in base_fail and any(f['fn'] == x['fn'] and (fn_in_scope(prop['units'][u], f['fn']) or (f.get('wrapper_of') and fn_in_scope(prop['units'][u], f['wrapper_of']))) for f in r.info['functions']):
                     unstable += 1
                     undecided.append('%s: %s fails only with solver seed %d (unstable proof, not a violation)' % (u, x['obligation'], s2))
             for msg in r.undecided:
